@@ -1,8 +1,201 @@
+import Corro.Model.SubLife
 import Driver.Util
-/-! Driver stub for C13: not built yet. -/
+/-! Line-protocol driver for C13: the op lines of `harness/src/c13.rs` translated into sequences of
+model operations of `Corro.SubLife` (what the harness does and waits for at each op). -/
 namespace Driver.C13
-abbrev State := Unit
-def init : State := ()
-def step (st : State) (_toks : List String) : Option (State × String) := some (st, "bad-op")
+open Corro.SubLife
+
+/-- the harness's own flags next to the model state -/
+structure Node where
+  s        : S
+  /-- the case follows a subscription directory (set by `sub` / `plant`, never cleared) -/
+  tracked  : Bool
+  planted  : Bool
+  /-- `drop_handles()` has been called in this incarnation -/
+  wound    : Bool
+  /-- the read pool is held: match steps are deferred -/
+  holding  : Bool
+  /-- the initial query is known to have finished (`sub` without `nowait`, `sync`, restore) -/
+  eoq      : Bool
+
+structure State where
+  n        : Node
+  images   : List (String × Node)
+  /-- a `kill` line has been seen (only the first one is interpreted) -/
+  killSeen : Bool
+  /-- the node was killed somewhere inside its stop sequence (the model does not say where):
+      1 = dead, 2 = restarted: only `restart live` and then `check` answer; 3 = the kill did not apply, dead end -/
+  racy     : Nat
+
+def init : State :=
+  { n := { s := Corro.SubLife.init, tracked := false, planted := false, wound := false, holding := false, eoq := false },
+    images := [], killSeen := false, racy := 0 }
+
+def keyDomain : Nat := 32
+
+def showStatus : Option Status → String
+  | none => "nometa"
+  | some .created => "created"
+  | some .running => "running"
+  | some .cancelled => "cancelled"
+  | some .completed => "completed"
+
+def showState (s : S) : String := if s.dir then showStatus s.state else "nodir"
+
+def rowsOk (s : S) : Bool := (List.range keyDomain).all (fun k => s.rows k == s.db k)
+
+/-- `<pk>=<v|x>,...` -/
+def parseTx (spec : String) : Option Tx :=
+  (spec.splitOn ",").mapM fun kv =>
+    match kv.splitOn "=" with
+    | [k, v] => do
+      let k ← k.toNat?
+      if k ≥ keyDomain then none else
+      if v = "x" then pure (k, none) else do
+        let v ← v.toNat?
+        pure (k, some v)
+    | _ => none
+
+/-- the statements the harness really issues: those that change the row, judged in order -/
+def effective (db : Tbl) : Tx → Tx
+  | [] => []
+  | (k, v) :: r => if db k = v then effective db r else (k, v) :: effective (db.set k v) r
+
+def runN (n : Node) (ops : List Op) : Node := { n with s := run n.s ops }
+
+def syncable (n : Node) : Bool := n.s.up && n.s.reg && !n.s.tripped && !n.holding && n.eoq
+
+/-- wait until the matcher is quiescent -/
+def quiesce (n : Node) : Node := { runN n [.initialDone, .process] with eoq := true }
+
+def validTag (t : String) : Bool := t ≠ "live" && !t.isEmpty && t.toList.all Char.isAlphanum
+
+def doWind (n : Node) : Node × String :=
+  let n' := { runN n [.unreg false, .dropClone, .initialDone, .ack, .drainEnd] with wound := true }
+  (n', if n'.tracked && !n'.planted then s!"ok state={showState n'.s}" else "ok")
+
+def doExit (n : Node) : Node :=
+  let n1 := if n.holding then { runN n [.matchHeld] with holding := false } else n
+  runN n1 [.stop]
+
+def restarted (n : Node) : Node × String :=
+  let n' := { runN n [.restart] with wound := false, holding := false, eoq := true }
+  (n', if n'.tracked then (if n'.s.reg then "ok restored" else "ok removed") else "ok")
+
+def observe (n : Node) : Option (Node × String) :=
+  if n.s.up && n.tracked && !n.s.tripped && (!n.s.served || n.eoq) then
+    let n' := if syncable n && !n.s.pending.isEmpty then quiesce n else n
+    if n'.s.served then
+      some (n', s!"found state={showState n'.s} rows={if rowsOk n'.s then "ok" else "STALE"} last={n'.s.lastId}")
+    else some (n', s!"404 dir={if n'.s.dir then "present" else "gone"}")
+  else none
+
+def doWrite (n : Node) (spec : String) (andSync : Bool) : Option (Node × String) := do
+  let tx ← parseTx spec
+  if !n.s.up then none else
+  let eff := effective n.s.db tx
+  if eff.isEmpty then pure (n, "noop") else
+  let n1 := if n.holding then runN n [.writeHeld eff] else runN n [.write eff]
+  let n2 := if andSync && syncable n1 then quiesce n1 else n1
+  pure (n2, "ok")
+
+def stepNormal (st : State) (toks : List String) : Option (State × String) :=
+  let n := st.n
+  let ret (r : Node × String) : Option (State × String) := some ({ st with n := r.1 }, r.2)
+  match toks with
+  | ["fill", k] => do
+    let k ← k.toNat?
+    if n.s.up && !n.tracked && k > 0 && k ≤ 20000 then ret (n, "ok") else none
+  | ["sub", q] =>
+    if (q = "all" || q = "slow") && n.s.up && !n.s.tripped && !n.s.dir then
+      ret ({ runN n [.mkdir, .create, .initialDone] with tracked := true, planted := false, eoq := true }, "ok new")
+    else none
+  | ["sub", q, "nowait"] =>
+    if (q = "all" || q = "slow") && n.s.up && !n.s.tripped && !n.s.dir then
+      ret ({ runN n [.mkdir, .create] with tracked := true, planted := false, eoq := false }, "ok new")
+    else none
+  | ["w", spec] => (doWrite n spec true).bind ret
+  | ["wp", spec] => (doWrite n spec false).bind ret
+  | ["hold"] => if n.s.up && !n.holding then ret ({ n with holding := true }, "ok") else none
+  | ["release"] =>
+    if n.s.up && n.holding then ret ({ runN n [.matchHeld] with holding := false }, "ok") else none
+  | ["sync"] =>
+    if n.s.up && n.s.reg && !n.s.tripped && !n.holding then
+      let n' := quiesce n
+      ret (n', s!"ok last={n'.s.lastId}")
+    else none
+  | ["trip"] => if n.s.up && !n.s.tripped then ret (runN n [.trip], "ok") else none
+  | ["wind"] => if n.s.up && n.s.tripped && !n.wound then ret (doWind n) else none
+  | ["exit"] => if n.s.up && n.wound then ret (doExit n, "ok") else none
+  | ["graceful"] =>
+    if n.s.up && !n.s.tripped then
+      let (n1, out) := doWind (runN n [.trip])
+      ret (doExit n1, out)
+    else none
+  | ["unsub"] =>
+    if n.s.up && n.s.reg && !n.s.tripped then
+      let n' := runN n [.unreg false, .initialDone, .ack, .drainEnd]
+      ret (n', s!"ok state={showState n'.s}")
+    else none
+  | ["unsub", "hold"] =>
+    if n.s.up && n.s.reg && !n.s.tripped then
+      let n' := runN n [.unreg true, .initialDone, .ack]
+      ret (n', s!"ok state={showState n'.s}")
+    else none
+  | ["drophold"] =>
+    if n.s.up && n.s.clone then
+      let n' := runN n [.dropClone, .drainEnd]
+      ret (n', s!"ok state={showState n'.s}")
+    else none
+  | ["plant"] =>
+    if n.s.up && !n.tracked then ret ({ runN n [.mkdir] with tracked := true, planted := true }, "ok") else none
+  | ["snapshot", tag] =>
+    if validTag tag && !(st.images.any (·.1 = tag)) then
+      some ({ st with images := (tag, runN n [.stop]) :: st.images }, "ok")
+    else none
+  | ["restart", tag] =>
+    if tag = "live" then
+      if !n.s.up then ret (restarted n) else none
+    else
+      match st.images.find? (·.1 = tag) with
+      | some (_, img) =>
+        let (n', out) := restarted img
+        some ({ st with n := n', images := st.images.filter (·.1 ≠ tag) }, out)
+      | none => none
+  | ["subinfo"] => (observe n).bind ret
+  | ["check"] => (observe n).bind fun r => ret (r.1, "ok")
+  | _ => none
+
+/-- thorough tier: the node is a child process that is SIGKILLed.  `idle` / `busy`: a stop right
+here (`busy` writes keys outside the model's key space meanwhile); `wind`: somewhere inside the stop
+sequence. -/
+def step (st : State) (toks : List String) : Option (State × String) :=
+  match toks with
+  | "kill" :: rest =>
+    if st.killSeen || st.racy ≠ 0 then none else
+    let st := { st with killSeen := true }
+    match rest with
+    | [m, k] =>
+      match k.toNat? with
+      | some k =>
+        if k > 100000 || !(m = "idle" || m = "busy" || m = "wind") then some (st, "bad-op") else
+        -- (the images taken so far lived in the killed process's scratch space: forgotten)
+        let st := { st with images := [] }
+        if m = "wind" then
+          if st.n.s.up && !st.n.wound then some ({ st with racy := 1 }, "ok")
+          else some ({ st with racy := 3 }, "bad-op")
+        else
+          if st.n.s.up then some ({ st with n := runN st.n [.stop] }, "ok")
+          else some ({ st with racy := 3 }, "bad-op")
+      | none => some (st, "bad-op")
+    | _ => some (st, "bad-op")
+  | _ =>
+    if st.racy = 1 then
+      if toks = ["restart", "live"] then some ({ st with racy := 2, n := { st.n with eoq := true } }, "ok") else none
+    else if st.racy = 2 then
+      if toks = ["check"] && st.n.tracked && st.killSeen && st.n.eoq && st.n.s.up then some (st, "ok") else none
+    else if st.racy = 3 then none
+    else stepNormal st toks
+
 end Driver.C13
 def main : IO Unit := Driver.runLoop Driver.C13.init Driver.C13.step
